@@ -282,7 +282,8 @@ def rule_sort_taint_others(ctx):
                 ctx.ob("SORT-TAINT", "%s: HashMap iteration is handed to the caller, not serialised" % facts.fns.get(k, {}).get("name", k), returned, fn=k, site=b.site(bb), detail="returns %s" % nshow(ret)[:140])
             if "HashMap" in p and ("clone" in p or "Debug" in p or p.endswith("::fmt")):
                 pass
-    ctx.ob("SORT-TAINT", "HashMap iteration sites outside the serialiser", n == 3, detail="found %d (algorithms, iter, IntoIterator for &Checksum)" % n)
+    # (how many accessors iterate is not part of the property: each site is checked on its own above)
+    ctx.ob("SORT-TAINT", "HashMap iteration sites outside the serialiser, all inspected", n >= 1, detail="found %d (today: algorithms, iter, IntoIterator for &Checksum)" % n)
     # Debug derive on Checksum prints the map in hash order: Debug output is not part of the canonical text (noted)
     ctx.note("derived Debug for Checksum iterates the HashMap in hash order; Debug text is not covered by C12's statement")
 
@@ -411,7 +412,27 @@ def rule_delegation(ctx):
     ctx.ob("DELEGATE", "get(alg) = get_value(alg).map(|v| from_hex(v.raw)).transpose()", ok, fn=k, site=fn_site(facts, k), detail=nshow(t)[:160])
     k = rl.get("get_value")
     t = norm(facts.body(k).resolve_local(0))
-    ok = t[0] == "call" and t[1] == "std::option::Option::<T>::map" and t[2][0][0] == "call" and t[2][0][1].endswith("HashMap::<K, V, S, A>::get") and models.field_path(t[2][0][2][0]) == "algorithms" and t[2][0][2][1] == ("arg", 2)
+    def is_map_lookup(x):
+        return x[0] == "call" and x[1].endswith("HashMap::<K, V, S, A>::get") and models.field_path(x[2][0]) == "algorithms" and x[2][1] == ("arg", 2)
+
+    def raw_lookup(x):
+        """algorithms.get(alg), or get_raw(alg) when that is algorithms.get(alg).map(|v| &**v)"""
+        if is_map_lookup(x):
+            return True
+        if x[0] == "call" and x[1] == rl.get("get_raw") and x[2] == (("arg", 1), ("arg", 2)):
+            rt = norm(facts.body(rl["get_raw"]).resolve_local(0))
+            if rt[0] == "call" and rt[1] == "std::option::Option::<T>::map" and is_map_lookup(rt[2][0]) and rt[2][1][0] == "closure":
+                ct = norm(facts.body(rt[2][1][1]).resolve_local(0))
+                return ct == ("arg", 2)  # the identity view &**v
+        return False
+    wrap = t[2][1] if t[0] == "call" and t[1] == "std::option::Option::<T>::map" and len(t[2]) == 2 else None
+    okw = False
+    if wrap is not None and wrap[0] == "fn":
+        okw = wrap[1].endswith("ChecksumValue")
+    elif wrap is not None and wrap[0] == "closure" and wrap[1] in facts.bodies:
+        ct = norm(facts.body(wrap[1]).resolve_local(0))
+        okw = ct[0] == "agg" and ct[1][0] == "adt" and ct[1][1].endswith("ChecksumValue") and len(ct[2]) == 1 and ct[2][0] == ("arg", 2)
+    ok = t[0] == "call" and t[1] == "std::option::Option::<T>::map" and raw_lookup(t[2][0]) and okw
     ctx.ob("DELEGATE", "get_value(alg) = self.algorithms.get(alg).map(ChecksumValue)", ok, fn=k, site=fn_site(facts, k), detail=nshow(t)[:160])
     # insert_raw: replace the value of an existing (exact) key, else insert under the lower-cased key
     k = rl.get("insert_raw")
@@ -492,13 +513,13 @@ def rule_controls(ctx):
 
 RULES = [
     ("CONTROL", rule_controls, 0),
-    ("SORT-TAINT", lambda ctx: (rule_serializer(ctx), rule_sort_taint_others(ctx)), 10),
-    ("HEX-GUARD", lambda ctx: None, 6),
-    ("AGREE-K", rule_agree_parser, 5),
+    ("SORT-TAINT", lambda ctx: (rule_serializer(ctx), rule_sort_taint_others(ctx)), 8),  # serialiser: 7 obligations + at least one accessor site
+    ("HEX-GUARD", lambda ctx: None, 3),
+    ("AGREE-K", rule_agree_parser, 3),
     ("KEY-LOWER", rule_key_lower, 4),
     ("GUARDXFORM", lambda ctx: None, 3),
     ("DELEGATE", rule_delegation, 4),
-    ("BUILD-CANON", rule_build_canon, 5),
+    ("BUILD-CANON", rule_build_canon, 3),
 ]
 
 MANIFEST = {
